@@ -34,6 +34,15 @@ UNIT = dict(
             ("Self::default()", "Self::default()"),
         ],
     ),
+    # DirList::obtain (an async stream with async closures) is outside the extraction subset: the directory listing enters as an arbitrary map from
+    # entry name to node kind. What that map records is pinned structurally, and exercised by the bounded execution (files, directories, symbolic links).
+    structural=[
+        dict(id="C20.structure.the_listing_records_each_entrys_own_name_and_type", file=F, impl="impl DirList", count_in_fn="obtain",
+             pattern="if let (Ok(path), Ok(file_type)) = (entry.path().strip_prefix(path), entry.file_type().await) { Some((path.to_owned(), file_type)) } else { None }", expect=1,
+             why="a marker 'present as a file / as a directory' is judged on the directory entry's own type (links are not followed) under its own name relative to the listed directory"),
+        dict(id="C20.structure.the_listing_is_of_the_asked_directory", file=F, impl="impl DirList", count_in_fn="obtain", pattern="if let Ok(s) = read_dir(path).await { Self( ReadDirStream::new(s)", expect=1,
+             why="and it is the listing of the directory asked about; an unreadable directory has no entries"),
+    ],
     extract=[
         dict(id="ProjectType", kind="type", src=F, name="ProjectType"),
         dict(id="DirList", kind="type", src=F, name="DirList"),
